@@ -240,6 +240,11 @@ def directed(rng):
         # the watcher of the failed one does afterwards)
         add('cb-sendfail-then-next-%d' % v, P, [dict(a='sendfail'), dict(a='callback', c='cbA', noctx=bool(v % 2)), dict(a='sendheal'), dict(a='callback', c='cbB'), D,
                                                S(reply(1, v)), S(reply(2, v)), D, dict(a='callback', c='cbC'), D, S(reply(2, v), reply(3, v)), D])
+        # a push is inside Send (held there) when a reply becomes ready, another push is issued, the server is stopped: one at a time
+        add('push-held-in-send-%d' % v, {'push': True, 'conc': 3}, [S(call(1)), S(call(2)), S(call(3)), D, dict(a='holdop', kind='send'),
+                                                                  dict(a='notify', **{'from': 'm2.1'}) if v != 1 else dict(a='callback', c='cbA', **{'from': 'm2.1'}), D, hret('m1.1'), D]
+                                                                 + [[dict(a='notify', **{'from': 'm3.1'}), D], [dict(a='notify', **{'from': 'm3.1'}), D], [dict(a='stop'), D]][v]
+                                                                 + [dict(a='unhold'), D] + ([S(reply(1))] if v == 1 else []) + [hret('m2.1'), hret('m3.1'), D])
         add('cb-note-%d' % v, P, [S(note()), D, dict(a='callback', c='cbA', **{'from': 'm1.1'}), S(call(1)), D, S(reply(1, v)), D, hret('m1.1'), D, hret('m2.1'), D])
         add('cb-two-%d' % v, P, [dict(a='callback', c='cbA'), dict(a='callback', c='cbB'), D, S(reply(2, v)), D, S(reply(1)), D])
         add('cb-stop-%d' % v, P, [dict(a='callback', c='cbA'), D, dict(a='stop'), D, dict(a='callback', c='cbB'), dict(a='notify'), D])
